@@ -37,11 +37,11 @@ def plain_bundle(length, with_ext):
     return dict(primary=pri, blocks=blocks)
 
 
-def source_encrypt(kind, length, with_ext):
+def source_encrypt(kind, length, with_ext, mtu=None, all_sent=False):
     from bp.app.bpsec import SecAssociation, SecOperation
     from pycose import algorithms
     from .c05 import impl_container
-    world = BpWorld(dict(node_id=SRC, tx_routes=[('.*', 'dtn://next/', None)]))
+    world = BpWorld(dict(node_id=SRC, tx_routes=[('.*', 'dtn://next/', mtu)]))
     cose = world.cose()
     ivs = [bytes(range(12)), bytes(range(20, 32))]
     if kind == 'enc0':
@@ -63,6 +63,10 @@ def source_encrypt(kind, length, with_ext):
     world.send(impl_container(plain_bundle(length, with_ext)))
     world.quiesce()
     sent = world.sent()
+    if all_sent:
+        if world.api_errors or world.escaped:
+            raise RuntimeError('source agent failed: %r %r' % (world.api_errors[:1], world.escaped[:1]))
+        return sent
     if len(sent) != 1 or world.api_errors or world.escaped:
         raise RuntimeError('source agent did not produce one encrypted bundle: %r %r %r' % (len(sent), world.api_errors[:1], world.escaped[:1]))
     return sent[0]
@@ -356,6 +360,62 @@ def run_case(params, known):
                 samples=samples, verdicts=counts, report_keys=['verdicts'])
 
 
+def run_fragmented(params, known):
+    '''The route has an MTU smaller than the protected bundle: whatever leaves the node (fragments)
+    carries no run of plaintext octets, and a receiver holding the key that gets all of it recovers
+    exactly the plaintext.'''
+    from .. import env as _env
+    _env.load_bp()
+    violations = []
+    kinds = set()
+    count = 0
+    keys = set()
+
+    def viol(kind, detail, case):
+        if kind in kinds:
+            return
+        kinds.add(kind)
+        v = Violation(PROP, 'confidentiality', kind, dict(), '%r: %s' % (case, detail)).as_dict()
+        v['case'] = case
+        violations.append(v)
+    for kind in ('enc0', 'enc-kw'):
+        for (length, mtu) in ((300, 250), (300, 230), (1000, 300), (1000, 700), (64, 250)):
+            for order in ('in-order', 'reversed'):
+                count += 1
+                case = dict(kind=kind, length=length, mtu=mtu, arrival=order)
+                try:
+                    sent = source_encrypt(kind, length, False, mtu=mtu, all_sent=True)
+                except RuntimeError as err:
+                    if 'too large for route MTU' in str(err):
+                        keys.add('%s/%d/%d/refused' % (kind, length, mtu))
+                        continue      # the security blocks alone exceed the MTU: nothing leaves the node
+                    viol('source-cannot-apply-confidentiality-block', str(err)[:600], case)
+                    continue
+                plain = plaintext(length)
+                for octets in sent:
+                    if len(octets) > mtu:
+                        viol('oversized-bundle-transmitted', '%d octets on an MTU-%d route' % (len(octets), mtu), case)
+                    if contains_window(octets, plain):
+                        viol('plaintext-window-on-the-wire', 'an 8-octet window of the plaintext appears in a transmitted bundle of %d octets' % len(octets), case)
+                if not sent:
+                    viol('nothing-sent', 'no bundle left the node', case)
+                    continue
+                world = BpWorld(dict(node_id=NODE, rx_routes=[('^dtn://node/.*', 'deliver')], tx_routes=[('.*', 'dtn://next/', None)],
+                                     accept_after_verify=True))
+                cose = world.cose()
+                cose.sym_key_store[KID] = sym_key(KEY, ['WrapOp', 'UnwrapOp'], 'A256KW') if kind == 'enc-kw' else sym_key(KEY, ['EncryptOp', 'DecryptOp'], 'A256GCM')
+                for octets in (reversed(sent) if order == 'reversed' else sent):
+                    world.receive(octets)
+                    world.quiesce()
+                got = [bytes.fromhex(b[2]) for d in world.probe.seen for b in d['blocks'] if b[0] == 1]
+                keys.add('%s/%d/%d/%s/%d' % (kind, length, mtu, order, len(sent)))
+                if world.escaped:
+                    viol('exception-escaped-idle-callback', '%s: %s' % (world.escaped[-1][0], world.escaped[-1][2]), case)
+                elif got != [plain]:
+                    viol('receiver-with-key-does-not-recover-plaintext', 'delivered %r octets, errors %r' % ([len(g) for g in got], world.api_errors[:1]), case)
+    return dict(name=params['name'], evaluations=count, nontrivial_keys=sorted(keys), violations=violations, known=[], samples=[])
+
+
 def run_admin_target(params, known):
     '''The target is the payload of a status report the source node generates itself (the block
     then has a parsed record attached): with a confidentiality association that matches, what
@@ -418,6 +478,7 @@ def run_admin_target(params, known):
 def scenarios(tier):
     out = []
     out.append(dict(name='admin-record-target', kind='enum', runner='run_admin_target', params=dict(name='admin-record-target'), weight=5))
+    out.append(dict(name='fragmented', kind='enum', runner='run_fragmented', params=dict(name='fragmented'), weight=5))
     for kind in ('enc0', 'enc-kw'):
         for length in LENGTHS:
             for with_ext in (False, True, 'rev'):
@@ -432,6 +493,7 @@ def scenarios(tier):
 
 
 ASSUMPTIONS = [
+    'route MTU below the protected bundle (five length / MTU pairs, both key modes): every transmitted fragment is searched for plaintext and the whole is delivered to a receiver with the key, in order and reversed',
     'trusted base: pycose and cryptography (AES-GCM) primitives',
     'one scenario whose target is the payload of a status report generated by the source node itself (a block with parsed content attached)',
     'plaintext lengths 0,1,15,16,17,255,256; the empty plaintext has no "is ciphertext" requirement',
